@@ -52,11 +52,18 @@ def sc_posterior(d, kind, n, nq, weights):
         if d.sym:
             raise core.PathAbort("weights with no labeled sample are rejected (documented)")
         return
-    if weights and d.sym:
-        for i in lab:
-            d.c.assume(core.s_lt(0, ws[i]))
     xs = [d.fl(f"x{i}") for i in range(n)]
-    reg.fit(d.arr([[x] for x in xs], shape=(n, 1)), y, None if ws is None else d.arr(ws))
+    try:
+        reg.fit(d.arr([[x] for x in xs], shape=(n, 1)), y, None if ws is None else d.arr(ws))
+    except ValueError as e:
+        # documented: weights that are all zero on the labeled samples are rejected - and nothing else is
+        if not weights:
+            raise
+        tot = ws[lab[0]]
+        for i in lab[1:]:
+            tot = tot + ws[i]
+        d.prove(d.eq(tot, 0.0), "fit_rejects_only_zero_weight_on_the_labeled_samples", info=dict(error=repr(e)[:120]))
+        return
     # query points; the kernel between them and the labeled samples is an uninterpreted positive function (rbf in the replay)
     Kq = d.arr([[d.fl(f"q{i}", lo=-4.0, hi=4.0)] for i in range(nq)], shape=(nq, 1))
     if not proper and len(lab) < 1:
